@@ -231,6 +231,9 @@ type run struct {
 	refKey   map[vivid.ActorRef]key
 	obs      []lib.T
 	seens    []seen
+	panics   []panicRec      // scripted failures raised by user code, with the failing actor's state at that moment
+	decs     []decRec        // every consultation of a scripted supervision strategy
+	scripted map[string]bool // paths of actors that were given a scripted strategy (others use the system default)
 	spawnLog []lib.T
 	held     [][]vivid.ActorRef
 	curExt   int
@@ -320,7 +323,18 @@ func (r *run) msgDesc(msg any, toRoot bool) (lib.T, int, string, uint64) {
 
 // ---- scripted actor
 
+// panicRec / decRec feed the C08 monitor "a failure of a running child is presented to its (surviving) parent's strategy".
+type panicRec struct {
+	who   key
+	state int // state of the failing context when user code panicked: 0 running, 1 killing, 2 killed
+}
+type decRec struct {
+	sup   string   // path of the supervising actor ("" if it has not handled a message yet)
+	chain []string // paths of SupervisionContext.Child()
+}
+
 type shared struct {
+	path    string // path of the actor running this spec (set when it handles its first message)
 	spec    *Spec
 	spawned bool
 	hookK   int
@@ -375,6 +389,11 @@ func (r *run) newActor(spec *Spec) (*sa, []vivid.ActorOption) {
 	opts := []vivid.ActorOption{vivid.WithActorName(fmt.Sprintf("a%d", spec.Name))}
 	if spec.Strategy != 0 {
 		dm := vivid.SupervisionStrategyDecisionMakerFN(func(ctx vivid.SupervisionContext) (vivid.SupervisionDecision, string) {
+			var chain []string
+			for _, ch := range ctx.Child() {
+				chain = append(chain, ch.GetPath())
+			}
+			r.decs = append(r.decs, decRec{sup: sh.path, chain: chain})
 			d := 3
 			if sh.decK < len(spec.Decisions) {
 				d = spec.Decisions[sh.decK]
@@ -498,6 +517,9 @@ func (r *run) exec(c apiCtx, full vivid.ActorContext, who key, a Action, ext int
 			full.Unstash()
 		}
 	case aPanic:
+		if cc, ok := full.(*actor.Context); ok && full != nil {
+			r.panics = append(r.panics, panicRec{who: who, state: int(actor.XVInfo(cc).State)})
+		}
 		panic(fmt.Sprintf("scripted failure"))
 	case aSub:
 		c.EventStream().Subscribe(full, typedEvent(a.Ty, 0))
@@ -518,6 +540,13 @@ func (a *sa) interp(ctx vivid.ActorContext, mode uint64) {
 	r := a.r
 	c := ctx.(*actor.Context)
 	who := r.keyOf(c)
+	a.sh.path = who.path
+	if a.sh.spec.Strategy != 0 {
+		if r.scripted == nil {
+			r.scripted = map[string]bool{}
+		}
+		r.scripted[who.path] = true
+	}
 	desc, kind, ref, tag := r.msgDesc(ctx.Message(), false)
 	r.obs = append(r.obs, lib.L(lib.N(1), who.T(), lib.N(a.inst), lib.N(mode), desc))
 	r.seens = append(r.seens, seen{who, a.inst, mode, desc, kind, ref, tag})
@@ -547,22 +576,27 @@ type evRec struct {
 }
 
 type result struct {
-	events    []evRec
-	obs       []lib.T
-	final     []lib.T
-	query     []lib.T
-	subs      lib.T
-	overrun   bool
-	stuck     string
-	seens     []seen
-	dead      map[uint64]int // tag -> dead-letter reports handled by the guard
-	zombieAte map[uint64]bool
-	finals    []finalInfo
-	sent      map[uint64]int
-	stashed   map[uint64]int
-	rootGot   map[uint64]int
-	choices   []vsched.Choice
-	rootState int32
+	events      []evRec
+	obs         []lib.T
+	final       []lib.T
+	query       []lib.T
+	subs        lib.T
+	overrun     bool
+	stuck       string
+	seens       []seen
+	dead        map[uint64]int // tag -> dead-letter reports handled by the guard
+	zombieAte   map[uint64]bool
+	finals      []finalInfo
+	sent        map[uint64]int
+	stashed     map[uint64]int
+	rootGot     map[uint64]int
+	choices     []vsched.Choice
+	rootState   int32
+	streamSubs  map[string][]string // event type -> subscriber paths at quiescence
+	streamTypes map[string][]string // subscriber path -> event types at quiescence
+	panics      []panicRec
+	decs        []decRec
+	scripted    map[string]bool
 }
 
 type finalInfo struct {
@@ -709,6 +743,7 @@ func execute(scripts [][]Action, choose func([]int, int) int) result {
 	}
 	res.obs = r.obs
 	res.seens = r.seens
+	res.panics, res.decs, res.scripted = r.panics, r.decs, r.scripted
 	res.sent = r.sends
 	// final projection
 	for _, c := range r.order {
@@ -746,7 +781,8 @@ func execute(scripts [][]Action, choose func([]int, int) int) result {
 			res.rootState = info.State
 		}
 	}
-	st, _ := actor.XVStream(sys)
+	st, sty := actor.XVStream(sys)
+	res.streamSubs, res.streamTypes = st, sty
 	var tys []string
 	for t := range st {
 		tys = append(tys, t)
@@ -997,7 +1033,9 @@ func (g *gen) supScenario() [][]Action {
 		}
 		return h
 	}
-	site := g.r.Intn(4) // 0 user message, 1 OnLaunch, 2 a child's OnKilled, 3 user message + sibling failure
+	// 0 user message, 1 OnLaunch, 2 a child's OnKilled, 3 user message + sibling failure,
+	// 4 a second failure while the first is undecided (user message, then the grandchild's OnKilled while suspended)
+	site := g.r.Intn(5)
 	grand := &Spec{Name: 1, Prelaunch: true, Provider: g.r.Bool()}
 	c1 := &Spec{Name: 1, Prelaunch: true, Provider: g.r.Bool(), Hooks: hooks(), Strategy: g.r.Intn(3), Decisions: decs()}
 	c1.Launch = []Action{{K: aSpawn, Spec: grand}}
@@ -1007,7 +1045,7 @@ func (g *gen) supScenario() [][]Action {
 	if site == 1 {
 		c1.Launch = append(c1.Launch, Action{K: aPanic})
 	}
-	if site == 2 {
+	if site == 2 || site == 4 {
 		c1.Killed = []Action{{K: aPanic}}
 	}
 	c2 := &Spec{Name: 2, Prelaunch: true, Hooks: hooks()}
@@ -1020,6 +1058,8 @@ func (g *gen) supScenario() [][]Action {
 		var acts []Action
 		if i == fail && (site == 0 || site == 3) {
 			acts = []Action{{K: aPanic}}
+		} else if i == fail && site == 4 {
+			acts = []Action{{K: aKill, R: RX{K: 3, N: 1}, Poison: g.r.Bool()}, {K: aPanic}} // kill the grandchild and fail at once
 		} else if i == fail && site == 2 {
 			acts = []Action{{K: aKill, R: RX{K: 3, N: 1}, Poison: g.r.Bool()}} // kill the grandchild: its OnKilled makes c1 fail
 		} else if g.r.Chance(1, 3) {
@@ -1176,7 +1216,7 @@ func (h *H) emit(scripts [][]Action, res result) {
 			o := lib.Show(e.out)
 			for _, k := range []struct{ pat, name string }{{" (c ", "handled:dead-letter"}, {" (1))", "handled:OnLaunch"}, {" (2 ", "handled:OnKill"}, {" (3 ", "handled:OnKilled"}, {" (4 ", "handled:supervision"},
 				{" (5))", "handled:pause"}, {" (6))", "handled:resume"}, {" (7 ", "handled:restart"}, {" (8))", "handled:watch"}, {" (9))", "handled:unwatch"},
-				{" (a ", "handled:user"}, {" (b ", "handled:event"}, } {
+				{" (a ", "handled:user"}, {" (b ", "handled:event"}} {
 				if strings.Contains(o, k.pat) {
 					h.o.Stats[k.name]++
 					break
@@ -1210,12 +1250,12 @@ func (h *H) monitors(scripts [][]Action, res result, in lib.T) {
 	}
 	// ---- C05: lifecycle grammar per actor: Launch first; nothing after own OnKilled except a new Launch
 	type lc struct {
-		started bool
-		dead    bool
+		started  bool
+		dead     bool
 		killSeen bool
 	}
 	st := map[key]*lc{}
-	for _, s := range res.seens {
+	for si, s := range res.seens {
 		l := st[s.who]
 		if l == nil {
 			l = &lc{}
@@ -1226,7 +1266,25 @@ func (h *H) monitors(scripts [][]Action, res result, in lib.T) {
 			l.started, l.dead, l.killSeen = true, false, false
 		default:
 			if !l.started {
-				h.o.Monitor("c05-before-launch", in, fmt.Sprintf("%v saw %s before OnLaunch", s.who, lib.Show(s.desc)))
+				// two different histories: OnLaunch is merely late (another thread's message slipped in between
+				// registration and the OnLaunch enqueue), or this incarnation never sees OnLaunch at all
+				later := false
+				for _, t := range res.seens[si+1:] {
+					if t.who != s.who {
+						continue
+					}
+					if t.kind == 1 {
+						later = true
+					}
+					if t.kind == 1 || (t.kind == 3 && t.ref == t.who.path) {
+						break
+					}
+				}
+				if later {
+					h.o.Monitor("c05-before-launch", in, fmt.Sprintf("%v saw %s before OnLaunch; OnLaunch was handled later by the same incarnation", s.who, lib.Show(s.desc)))
+				} else {
+					h.o.Monitor("c05-never-launched", in, fmt.Sprintf("%v saw %s although this incarnation never handles OnLaunch", s.who, lib.Show(s.desc)))
+				}
 				l.started = true
 			}
 			if l.dead {
@@ -1326,6 +1384,90 @@ func (h *H) monitors(scripts [][]Action, res result, in lib.T) {
 	if res.rootState != 0 {
 		h.o.Stats["root-stopped-runs"]++
 		return // after the system itself stopped, undeliverable messages are dropped by design
+	}
+	// ---- C08: a failure raised by a RUNNING child is presented to the strategy of its parent, provided the parent
+	// survives the whole run untouched (never killed, restarted or failed itself; running at quiescence)
+	stable := map[string]bool{}
+	for _, f := range res.finals {
+		if f.reg && f.info.State == 0 && !f.info.Zombie && f.k.path != "/" {
+			stable[f.k.path] = true
+		}
+	}
+	launches := map[string]int{}
+	for _, sn := range res.seens {
+		if sn.kind == 1 {
+			launches[sn.who.path]++
+		}
+		if sn.kind == 2 {
+			stable[sn.who.path] = false
+		}
+	}
+	for _, pn := range res.panics {
+		stable[pn.who.path] = false // it failed itself
+	}
+	for p, n := range launches {
+		if n > 1 {
+			stable[p] = false
+		}
+	}
+	raised := map[string]int{}
+	for _, pn := range res.panics {
+		if pn.state == 0 {
+			raised[pn.who.path]++
+		}
+	}
+	for child, n := range raised {
+		parent := child[:strings.LastIndex(child, "/")]
+		if parent == "" || !stable[parent] || !res.scripted[parent] {
+			continue
+		}
+		got := 0
+		for _, d := range res.decs {
+			if d.sup != parent {
+				continue
+			}
+			for _, c := range d.chain {
+				if c == child {
+					got++
+					break
+				}
+			}
+		}
+		if got < n {
+			h.o.Monitor("c08-failure-not-supervised", in, fmt.Sprintf("%s failed %d time(s) while running, but the strategy of its parent %s (alive and untouched for the whole run) was consulted only %d time(s) about it", child, n, parent, got))
+		}
+	}
+	// ---- C06 / C19: at quiescence the event-stream tables mirror each other and name live actors only
+	live := map[string]bool{}
+	for _, f := range res.finals {
+		if f.reg && (f.info.State != 2 || f.info.Zombie) { // a zombie (failed restart) is kept, with its subscriptions, until it is killed
+			live[f.k.path] = true
+		}
+	}
+	for ty, ps := range res.streamSubs {
+		for _, p := range ps {
+			if !live[p] {
+				h.o.Monitor("c06-subscription-outlives-actor", in, fmt.Sprintf("%s is still subscribed to %s at quiescence although no live actor is registered at that path", p, ty))
+			}
+			found := false
+			for _, t := range res.streamTypes[p] {
+				found = found || t == ty
+			}
+			if !found {
+				h.o.Monitor("c19-tables-disagree", in, fmt.Sprintf("%s is a subscriber of %s but the reverse index does not list that type for it", p, ty))
+			}
+		}
+	}
+	for p, ts := range res.streamTypes {
+		for _, ty := range ts {
+			found := false
+			for _, q := range res.streamSubs[ty] {
+				found = found || q == p
+			}
+			if !found {
+				h.o.Monitor("c19-tables-disagree", in, fmt.Sprintf("the reverse index lists %s for %s but the subscriber table does not", ty, p))
+			}
+		}
 	}
 	// ---- C09: no survivor stays paused or holds runnable mail
 	for _, f := range res.finals {
